@@ -137,8 +137,14 @@ func (a *Asm) Drop()        { a.op("drop", wasm.OpcodeDrop) }
 func (a *Asm) Select()      { a.op("select", wasm.OpcodeSelect) }
 func (a *Asm) Return()      { a.op("return", wasm.OpcodeReturn) }
 func (a *Asm) Unreachable() { a.op("unreachable", wasm.OpcodeUnreachable) }
-func (a *Asm) MemSize()     { a.B = append(a.B, wasm.OpcodeMemorySize, 0); a.T = append(a.T, "memory.size") }
-func (a *Asm) MemGrow()     { a.B = append(a.B, wasm.OpcodeMemoryGrow, 0); a.T = append(a.T, "memory.grow") }
+func (a *Asm) MemSize() {
+	a.B = append(a.B, wasm.OpcodeMemorySize, 0)
+	a.T = append(a.T, "memory.size")
+}
+func (a *Asm) MemGrow() {
+	a.B = append(a.B, wasm.OpcodeMemoryGrow, 0)
+	a.T = append(a.T, "memory.grow")
+}
 func (a *Asm) Mem(name string, opc byte, align, off uint32) {
 	a.B = append(a.B, opc)
 	a.B = append(a.B, leb128.EncodeUint32(align)...)
@@ -308,17 +314,17 @@ type Global struct {
 }
 
 type Module struct {
-	Types    []FuncType
-	Imports  []int // type index of each imported host function
-	Funcs    []Func
-	Globals  []Global // all mutable and exported as g<i>; global 0 is the fuel (i32)
-	HasMem   bool
-	MemMin   uint32
-	MemMax   uint32
-	HasMax   bool
-	Table    []uint32 // function indices
-	Data     []byte   // at offset DataOff
-	DataOff  uint32
+	Types   []FuncType
+	Imports []int // type index of each imported host function
+	Funcs   []Func
+	Globals []Global // all mutable and exported as g<i>; global 0 is the fuel (i32)
+	HasMem  bool
+	MemMin  uint32
+	MemMax  uint32
+	HasMax  bool
+	Table   []uint32 // function indices
+	Data    []byte   // at offset DataOff
+	DataOff uint32
 }
 
 func vts(ts []VT) string {
@@ -416,24 +422,26 @@ type Config struct {
 	Floats                       bool
 	Memory                       bool
 	Imports                      int
-	MaxParams, MaxResults        int // 0 = defaults (4, 2)
-	MaxLocals                    int // 0 = default 6
+	MaxParams, MaxResults        int  // 0 = defaults (4, 2)
+	MaxLocals                    int  // 0 = default 6
 	Bulk                         bool // memory.copy / memory.fill
 	TailCalls                    bool // return_call (needs experimental.CoreFeaturesTailCall)
 	SIMD                         bool // v128 locals and lane-wise integer ops (outside the Lean fragment)
 }
 
 type fgen struct {
-	r       *rand.Rand
-	m       *Module
-	cfg     Config
-	self    int // index into m.Funcs of the function being generated
-	params  []VT
-	results []VT
-	locals  []VT // params + declared locals
-	a       *Asm
-	labels  []labelInfo // innermost last
-	nLoops  int
+	leafOnly  bool // no fuel prelude, hence no calls of guest functions
+	delayBusy bool
+	r         *rand.Rand
+	m         *Module
+	cfg       Config
+	self      int // index into m.Funcs of the function being generated
+	params    []VT
+	results   []VT
+	locals    []VT // params + declared locals
+	a         *Asm
+	labels    []labelInfo // innermost last
+	nLoops    int
 }
 
 type labelInfo struct {
@@ -474,7 +482,7 @@ func (g *fgen) types() []VT {
 
 func (g *fgen) localsOf(t VT) []uint32 {
 	var out []uint32
-	for i, lt := range g.locals[:len(g.locals)-6] { // loop counters and scratch locals are reserved
+	for i, lt := range g.locals[:len(g.locals)-7] { // delay slot, loop counters and scratch locals are reserved
 		if lt == t {
 			out = append(out, uint32(i))
 		}
@@ -568,6 +576,9 @@ func (g *fgen) ok(t VT) bool {
 func (g *fgen) callees(want []VT) []uint32 {
 	var out []uint32
 	total := len(g.m.Imports) + len(g.m.Funcs)
+	if g.leafOnly {
+		total = len(g.m.Imports) // a function without the fuel prelude calls no guest function
+	}
 	for i := 0; i < total; i++ {
 		var ti int
 		if i < len(g.m.Imports) {
@@ -799,7 +810,9 @@ func (g *fgen) stmt(depth int) {
 		}
 		return
 	}
-	switch r.Intn(19) {
+	switch r.Intn(21) {
+	case 17, 18:
+		g.delayed(depth)
 	case 0, 1, 2:
 		if ls := g.localsOf(t); len(ls) > 0 {
 			g.expr(t, depth+1)
@@ -917,6 +930,12 @@ func (g *fgen) stmt(depth int) {
 		g.a.BrIf(cands[r.Intn(len(cands))])
 	case 12:
 		total := len(g.m.Imports) + len(g.m.Funcs)
+		if g.leafOnly {
+			total = len(g.m.Imports)
+		}
+		if total == 0 {
+			return
+		}
 		f := uint32(r.Intn(total))
 		ft := g.typeOfFunc(f)
 		for _, p := range ft.Params {
@@ -986,6 +1005,130 @@ func (g *fgen) stmt(depth int) {
 			g.a.Unreachable()
 			g.a.End()
 		}
+	}
+}
+
+// delayed emits a value that is produced here and consumed exactly once only after other statements have
+// run in between: `cond = (load <relop> x); <statements with side effects>; br_if/if/select cond`.
+// Instruction selection that fuses a single-use producer (a load, a comparison) into its consumer must not
+// move it across the stores, calls and traps in between (finding F39).
+func (g *fgen) delayed(depth int) { g.delayedF(depth, false) }
+
+// delayedF: focused = the producer is `x <relop> global` / `global <relop> x` with x free of side effects,
+// the statement in between overwrites exactly that global, and the consumer is never trivial.
+func (g *fgen) delayedF(depth int, focused bool) {
+	r := g.r
+	if g.delayBusy {
+		return
+	}
+	d := uint32(len(g.locals)) - 7
+	g.delayBusy = true
+	readGlobal, readT := -1, I32
+	// producer: mostly a comparison whose first operand is a plain load
+	pick := r.Intn(4)
+	if focused {
+		pick = 1
+	}
+	switch pick {
+	case 0:
+		g.expr(I32, depth+1)
+	default:
+		t := []VT{I32, I64}[r.Intn(2)]
+		if focused && len(g.globalsOf(t)) == 0 {
+			t = I32 + I64 - t
+		}
+		other := func() {
+			if ls := g.localsOf(t); focused && len(ls) > 0 && r.Intn(2) == 0 {
+				g.a.LocalGet(ls[r.Intn(len(ls))])
+			} else if focused || r.Intn(2) == 0 {
+				g.a.Const(t, RandVal(r, t))
+			} else {
+				g.expr(t, g.cfg.MaxDepth)
+			}
+		}
+		// the load is the first or the second operand (back ends fuse memory operands on one side only)
+		loadFirst := r.Intn(2) == 0
+		if !loadFirst {
+			other()
+		}
+		gs := g.globalsOf(t)
+		switch {
+		case len(gs) > 0 && (focused || r.Intn(3) > 0):
+			readGlobal, readT = int(gs[r.Intn(len(gs))]), t
+			g.a.GlobalGet(uint32(readGlobal))
+		case g.m.HasMem && r.Intn(2) == 0:
+			for _, l := range loads {
+				if l.t == t {
+					g.a.I32Const(uint32(r.Intn(4096)))
+					g.a.Mem(l.name, l.opc, l.al, uint32(r.Intn(64)))
+					break
+				}
+			}
+		default:
+			g.expr(t, g.cfg.MaxDepth)
+		}
+		if loadFirst {
+			other()
+		}
+		var rel []numOp
+		for _, o := range binops[I32] {
+			if o.params[0] == t {
+				rel = append(rel, o)
+			}
+		}
+		g.a.Num(rel[r.Intn(len(rel))].opc)
+	}
+	g.a.LocalSet(d)
+	// the statements in between: at least one with a side effect on what the producer read
+	if readGlobal >= 0 && (focused || r.Intn(4) > 0) {
+		// overwrite exactly what the producer read
+		if focused {
+			g.a.Const(readT, RandVal(r, readT))
+		} else {
+			g.expr(readT, g.cfg.MaxDepth)
+		}
+		g.a.GlobalSet(uint32(readGlobal))
+	} else if gs := g.globalsOf(I32); len(gs) > 0 && r.Intn(2) == 0 {
+		g.expr(I32, g.cfg.MaxDepth)
+		g.a.GlobalSet(gs[r.Intn(len(gs))])
+	} else if gs := g.globalsOf(I64); len(gs) > 0 && r.Intn(2) == 0 {
+		g.expr(I64, g.cfg.MaxDepth)
+		g.a.GlobalSet(gs[r.Intn(len(gs))])
+	} else {
+		g.stmts(depth+1, 1+r.Intn(2))
+	}
+	g.delayBusy = false
+	// consumer
+	switch r.Intn(4) {
+	case 0:
+		g.a.LocalGet(d)
+		g.a.If(0, false)
+		g.labels = append(g.labels, labelInfo{})
+		g.stmts(depth+1, 1)
+		g.labels = g.labels[:len(g.labels)-1]
+		g.a.End()
+	case 1:
+		if ls := g.localsOf(I32); len(ls) > 0 {
+			g.a.I32Const(uint32(r.Intn(100)))
+			g.a.I32Const(uint32(r.Intn(100)))
+			g.a.LocalGet(d)
+			g.a.Select()
+			g.a.LocalSet(ls[r.Intn(len(ls))])
+		}
+	default:
+		// conditional branch to the end of a block: skipping the statements after it, or (when the block is
+		// the last thing before a merge) an edge the compiler has to split
+		g.a.Block(0, false)
+		g.labels = append(g.labels, labelInfo{})
+		g.a.LocalGet(d)
+		g.a.BrIf(0)
+		if focused {
+			g.stmts(depth+1, 1)
+		} else {
+			g.stmts(depth+1, r.Intn(2))
+		}
+		g.labels = g.labels[:len(g.labels)-1]
+		g.a.End()
 	}
 }
 
@@ -1102,7 +1245,7 @@ func (g *fgen) vleaf() {
 func (g *fgen) pressure(depth int) {
 	r := g.r
 	var used []uint32
-	n := len(g.locals) - 6
+	n := len(g.locals) - 7
 	for i := 0; i < n; i++ {
 		if !g.ok(g.locals[i]) {
 			continue
@@ -1113,18 +1256,23 @@ func (g *fgen) pressure(depth int) {
 	}
 	// a call in the middle (any callee), results dropped
 	total := len(g.m.Imports) + len(g.m.Funcs)
-	f := uint32(r.Intn(total))
-	ft := g.typeOfFunc(f)
-	for _, p := range ft.Params {
-		if ls := g.localsOf(p); len(ls) > 0 {
-			g.a.LocalGet(ls[r.Intn(len(ls))])
-		} else {
-			g.leaf(p)
-		}
+	if g.leafOnly {
+		total = len(g.m.Imports)
 	}
-	g.a.Call(f)
-	for range ft.Results {
-		g.a.Drop()
+	if total > 0 {
+		f := uint32(r.Intn(total))
+		ft := g.typeOfFunc(f)
+		for _, p := range ft.Params {
+			if ls := g.localsOf(p); len(ls) > 0 {
+				g.a.LocalGet(ls[r.Intn(len(ls))])
+			} else {
+				g.leaf(p)
+			}
+		}
+		g.a.Call(f)
+		for range ft.Results {
+			g.a.Drop()
+		}
 	}
 	// v128 locals: combine them pairwise (binary ops and shuffles) and store the result to memory
 	if g.cfg.SIMD && g.m.HasMem {
@@ -1268,19 +1416,27 @@ func Generate(r *rand.Rand, cfg Config) *Module {
 				decl = append(decl, V128)
 			}
 		}
+		decl = append(decl, I32)                // delay slot (see delayed)
 		decl = append(decl, I32, I32)           // loop counters
 		decl = append(decl, I32, I64, F32, F64) // scratch
 		g.locals = append(g.locals, decl...)
-		// fuel check
-		g.a.GlobalGet(0)
-		g.a.Num(wasm.OpcodeI32Eqz)
-		g.a.If(0, false)
-		g.a.Unreachable()
-		g.a.End()
-		g.a.GlobalGet(0)
-		g.a.I32Const(1)
-		g.a.Num(wasm.OpcodeI32Sub)
-		g.a.GlobalSet(0)
+		// fuel check; a third of the functions are leaves without it (they call imports only), so that their
+		// first instructions are not preceded by any side effect
+		g.leafOnly = r.Intn(3) == 0
+		if !g.leafOnly {
+			g.a.GlobalGet(0)
+			g.a.Num(wasm.OpcodeI32Eqz)
+			g.a.If(0, false)
+			g.a.Unreachable()
+			g.a.End()
+			g.a.GlobalGet(0)
+			g.a.I32Const(1)
+			g.a.Num(wasm.OpcodeI32Sub)
+			g.a.GlobalSet(0)
+		}
+		if g.leafOnly && r.Intn(2) == 0 {
+			g.delayedF(0, true) // first thing in the function: nothing with a side effect precedes the producer
+		}
 		g.stmts(0, 1+r.Intn(cfg.MaxStmts))
 		for _, rt := range ft.Results {
 			g.expr(rt, 1)
